@@ -76,6 +76,10 @@ pub struct Exec {
     lookups: u64,
     adopt_weight: BTreeSet<u8>,
     sweeper_held: bool,
+    /// first expiry-index inconsistency seen (reported at the end of the case)
+    pub deferred: Option<Failure>,
+    /// report expiry-index inconsistencies at once (check of C10)
+    pub strict_index: bool,
     /// deadline of keys the sweeper removed (for the near-deadline statistics only)
     swept_deadline: BTreeMap<u8, Duration>,
     /// whether the physical-state comparison (hooks) is on
@@ -116,6 +120,8 @@ impl Exec {
             lookups: 0,
             adopt_weight: BTreeSet::new(),
             sweeper_held: false,
+            deferred: None,
+            strict_index: false,
             swept_deadline: BTreeMap::new(),
             deep: true,
         }
@@ -308,9 +314,18 @@ impl Exec {
         for k in at_deadline { self.model.remove(k); self.stats.swept_keys += 1; }
         for (k, entry) in &self.model.held {
             let expired = self.model.expired(entry);
-            let lost_blame = if expired || matches!(blame, "C10" | "C04" | "C05") { blame } else { "C03" };
-            ensure!(store.contains_key(k), lost_blame, &format!("{}/{}", lost_blame, if expired { "lost-expired-early" } else { "lost" }),
-                "key {} should be held (value {:#x}, weight {}, deadline {:?}, now {:?}) but the store does not contain it", k, entry.value, entry.weight, entry.deadline, self.model.now);
+            if !store.contains_key(k) {
+                let lost_blame = if expired || matches!(blame, "C10" | "C04" | "C05") { blame } else { "C03" };
+                // one observation, several statements: a key that vanished although it is held, undeleted and unexpired
+                let mut also: Vec<String> = Vec::new();
+                if !expired {
+                    if self.stats.evictions == 0 && self.stats.rejected_space == 0 { also.push("C03".to_string()); }
+                    if entry.deadline.is_some() && blame == "C10" { also.push("C09".to_string()); also.push("C10".to_string()); }
+                    if entry.last_write_upsert { also.push("C08".to_string()); }
+                }
+                return Err(Failure::new(lost_blame, &format!("{}/{}", lost_blame, if expired { "lost-expired-early" } else { "lost" }),
+                    format!("key {} should be held (value {:#x}, weight {}, deadline {:?}, now {:?}) but the store does not contain it", k, entry.value, entry.weight, entry.deadline, self.model.now)).with_also(also));
+            }
         }
         for (k, (id, _, _)) in &store {
             ensure!(self.model.held.contains_key(k), blame, &tag("unexpected-key"),
@@ -352,7 +367,20 @@ impl Exec {
         }
         self.adopt_weight.clear();
         ensure!(snapshot.weight_used as i128 == self.model.used(), blame, &tag("used-mismatch"), "total weight used {} but the model holds keys weighing {}", snapshot.weight_used, self.model.used());
-        // expiry index
+        // expiry index: internal bookkeeping whose corruption shows only later (a key swept too early or never). The
+        // finding is remembered and reported at the end of the case unless a behavioural oracle fails first, so that
+        // the check of every property the corruption leads to can observe its own violation.
+        if self.deferred.is_none() {
+            if let Err(failure) = self.check_ttl_index(snapshot) {
+                if self.strict_index { return Err(failure); }
+                self.deferred = Some(failure);
+            }
+        }
+        Ok(())
+    }
+
+
+    fn check_ttl_index(&self, snapshot: &Snapshot<u64>) -> Check {
         let mut index: HashMap<u64, Vec<(Duration, usize)>> = HashMap::new();
         for entry in &snapshot.ttl {
             index.entry(entry.id).or_default().push((since_epoch(entry.expire_after), entry.shard));
@@ -556,23 +584,23 @@ impl Exec {
                 match immediate {
                     Some(St::RejExists) => { self.stats.rejected_exists += 1; Ok(None) }
                     Some(other) => Err(Failure::new("C07", "C07/put-on-readable", format!("{} on a readable key answered {:?} on the spot, expected Rejected(KeyAlreadyExists)", what, other))),
-                    None => Ok(Some(PendingCmd { ack, cmd: Pending::Put { k, value, weight, ttl, issued_now: self.model.now } })),
+                    None => Ok(Some(PendingCmd { ack, cmd: Pending::Put { k, value, weight, ttl, issued_now: self.model.now, from_upsert: false } })),
                 }
             }
             Some(entry) if entry.soft_deleted => {
                 // deleted but not yet acknowledged: no property constrains the answer
                 if immediate == Some(St::RejExists) { self.stats.rejected_exists += 1; return Ok(None); }
-                Ok(Some(PendingCmd { ack, cmd: Pending::Put { k, value, weight, ttl, issued_now: self.model.now } }))
+                Ok(Some(PendingCmd { ack, cmd: Pending::Put { k, value, weight, ttl, issued_now: self.model.now, from_upsert: false } }))
             }
             Some(_) => {
                 // expired, not swept (probe only): must not be answered KeyAlreadyExists
                 ensure!(immediate != Some(St::RejExists), "C07", "C07/put/expired-unswept", "{} on a key past its time-to-live (not yet swept, reads as absent) answered Rejected(KeyAlreadyExists)", what);
-                Ok(Some(PendingCmd { ack, cmd: Pending::Put { k, value, weight, ttl, issued_now: self.model.now } }))
+                Ok(Some(PendingCmd { ack, cmd: Pending::Put { k, value, weight, ttl, issued_now: self.model.now, from_upsert: false } }))
             }
             None => {
                 ensure!(immediate != Some(St::RejExists) || self.pending_put_exists(k), "C07", "C07/put-on-absent", "{} on a key that reads as absent answered Rejected(KeyAlreadyExists) on the spot", what);
                 if immediate == Some(St::RejExists) { self.stats.rejected_exists += 1; return Ok(None); }
-                Ok(Some(PendingCmd { ack, cmd: Pending::Put { k, value, weight, ttl, issued_now: self.model.now } }))
+                Ok(Some(PendingCmd { ack, cmd: Pending::Put { k, value, weight, ttl, issued_now: self.model.now, from_upsert: false } }))
             }
         }
     }
@@ -699,12 +727,13 @@ impl Exec {
                 if ttl.is_some() { self.ttl_keys_ever.insert(k); }
                 let immediate = poll_once(&ack, &noop_waker()).map(St::from);
                 ensure!(immediate != Some(St::RejExists) || pending_put, "C07", "C07/put-on-absent", "{} on an absent key answered Rejected(KeyAlreadyExists) on the spot", what);
-                Ok(Some(PendingCmd { ack, cmd: Pending::Put { k, value: value.unwrap(), weight, ttl, issued_now: now } }))
+                Ok(Some(PendingCmd { ack, cmd: Pending::Put { k, value: value.unwrap(), weight, ttl, issued_now: now, from_upsert: true } }))
             }
             Some(entry) => {
                 self.stats.upserts_in_place += 1;
                 let dead = entry.soft_deleted || self.model.expired(&entry);
                 let model_entry = self.model.held.get_mut(&k).unwrap();
+                model_entry.last_write_upsert = true;
                 if let Some(value) = value { model_entry.value = value; }
                 if remove {
                     if model_entry.deadline.is_some() { self.stats.ttl_removed += 1; self.ttl_changed_since_sweep = true; }
